@@ -125,6 +125,16 @@ def run(ctx):
     # a stale (empty) budget turns the sentence into a task in the enum parser only (seeds c01-b/c, c15-d)
     import c01 as _c01, tables as _tables
     _c01.x_conflict(ctx, _tables.Tables(ctx))
+    # parser state: any field beyond the reviewed ones is unmodelled state (seed c06-e: an atom cache keyed by the bare name; c09-f: a stale
+    # copula index surviving reset_to)
+    import c08 as _c08
+    _c08.rule_S_FIELDS(ctx)
+    # the parsers store names and components through the two term mutators and rely on them storing verbatim / completely
+    # (seeds c12-e: push_components dropped placeholders, c12-f: set_atom_name trimmed underscores)
+    import c17 as _c17
+    _c17.rule_K_MUTATOR(ctx)
+    import tables as _t2
+    _t2.rule_T_IDENT_CLASS(ctx, _t2.Tables(ctx), models=("enum", "lex"))
     ctx.undecided = ["equality of the two pipelines' values on every string (nesting, leniency on malformed input)"]
     ctx.assumptions = ["rustc HIR/name resolution is correct", "nar_dev_utils 0.42.3 dictionary semantics as read from its source"]
     ctx.trusted = ["rustc nightly front end (HIR, typeck)", "mirfacts driver", "python rule layer"]
